@@ -143,6 +143,7 @@ func init() {
 		},
 
 		"io.WriteString": inIoWriteString,
+		"io.ReadAll":     inIoReadAll,
 		"io.Copy":        inIoCopy,
 
 		"sort.Strings": inSortStrings,
@@ -1006,4 +1007,54 @@ func inStrconvParseBool(fr *frame, a []value) value {
 	i := fr.i
 	n, err := strconv.ParseBool(i.concStr(a[0]))
 	return tuple{n, i.errOrNil(err)}
+}
+
+func inIoReadAll(fr *frame, a []value) value {
+	i := fr.i
+	r := a[0].(iface)
+	if r.t == nil {
+		panic(runtimeError("invalid memory address or nil pointer dereference"))
+	}
+	switch r.t.String() {
+	case "*strings.Reader", "*bytes.Reader":
+		box := (*r.v.(*value)).(structure)
+		off := box[1].(int)
+		var rest value
+		switch c := box[0].(type) {
+		case string:
+			if off > len(c) {
+				off = len(c)
+			}
+			rest = c[off:]
+			box[1] = len(c)
+		case symStr, symBytes:
+			if off != 0 {
+				unsupported("io.ReadAll on a partially read symbolic reader")
+			}
+			rest = i.mkStr(i.strOf(c))
+		default:
+			s := i.concStr(c)
+			rest = s[off:]
+			box[1] = len(s)
+		}
+		return tuple{i.strToBytes(rest), iface{}}
+	}
+	var data []value
+	for n := 0; n < 1<<16; n++ {
+		buf := make([]value, 512)
+		for k := range buf {
+			buf[k] = byte(0)
+		}
+		res := i.callMethod(fr, r, "Read", buf).(tuple)
+		cnt := int(asInt64(i.concretize(res[0])))
+		data = append(data, buf[:cnt]...)
+		if e := res[1].(iface); e.t != nil {
+			if e.v == i.globalError("io.EOF").v {
+				return tuple{data, iface{}}
+			}
+			return tuple{data, e}
+		}
+	}
+	unsupported("io.ReadAll: reader does not end")
+	return nil
 }
